@@ -331,7 +331,17 @@ func runC09Scenario(rec *Recorder, sc c09Scenario) {
 	}()
 	// --- fault injection relative to completed control cycles
 	cmdSub := filepath.Join(dir, "cmd_f1")
+	// faults are faults of control cycles: once the restore sequence of the fan has begun nothing is injected any more and
+	// what is still active on the fan's side is withdrawn (a device that refuses the restore writes as well is the subject
+	// of C03, and excluded there when even the full-speed write is refused: no implementation can comply)
+	var faultMu sync.Mutex
+	restoring := false
 	inject := func(f c09Fault) {
+		faultMu.Lock()
+		defer faultMu.Unlock()
+		if restoring {
+			return
+		}
 		rec.Emit(Ev{"ev": "Inject", "kind": f.Kind, "n": f.N})
 		window := time.Duration(150+200*f.N) * time.Millisecond
 		fileFault := func(path, mode string) {
@@ -402,11 +412,16 @@ func runC09Scenario(rec *Recorder, sc c09Scenario) {
 			started = true
 		}
 		if event == "RestoreBegin" {
-			// the injected fault is over when regulation of the fan ends: what the restore sequence does with a device
-			// that refuses its writes as well is the subject of C03 (and excluded there when even full speed is refused)
+			faultMu.Lock()
+			restoring = true
 			for _, ff := range []string{"fault_set", "fault_get", "fault_rpm"} {
 				os.Remove(filepath.Join(cmdSub, ff))
 			}
+			for _, sf := range []string{"getpwm.sh", "setpwm.sh", "getrpm.sh"} {
+				_ = os.Chmod(filepath.Join(cmdSub, sf), 0755)
+			}
+			h.ClearFaults("f1.")
+			faultMu.Unlock()
 		}
 		if event == "RestoreEnd" {
 			// regulation of the fan ended (control error): stop soon
